@@ -690,11 +690,17 @@ def rules(repo=None):
 
 EXPLANATION = (
     "Static protocol check of the writer's file-system behaviour. R1: string provenance of every path given to "
-    "H5Fcreate/rename/remove (tmp. format literal, strstr needle offset). R2: typestate of the HDF5 handles at "
-    "each publish call (ZERO on every path, each zeroing preceded by its close). R3: complete table of FS "
-    "primitives in the C library and h5py.File modes in the package; access()+H5F_ACC_EXCL before create. "
-    "R4: every H5Fcreate is staged under tmp. R6: no store to the identity fields sub_directory/basename can precede a publish call in its function. R5: regular-language emptiness of grammar & tmp-names; clean close "
-    "finalizes. R7: the failed-create branch sets has_failure, and a refusal made after probing the tmp. path (a file found under the name about to be created) sets it too or does not leave the remembered name pointing at that file, so a tmp file this session does not own is never renamed. Decides the protocol shape on all paths, NOT that HDF5 flushed every byte (see C10) nor page-cache loss.")
+    'H5Fcreate/rename/remove (tmp. format literal, strstr needle offset). R2: typestate of the HDF5 handles at each '
+    'publish call (ZERO on every path, each zeroing preceded by its close). R3: complete table of FS primitives in the C '
+    'library and h5py.File modes in the package; access()+H5F_ACC_EXCL before create. R4: every H5Fcreate is staged under'
+    ' tmp. R6: no store to the identity fields sub_directory/basename can precede a publish call in its function. R5: '
+    'regular-language emptiness of grammar & tmp-names; clean close finalizes. R7: the failed-create branch sets '
+    'has_failure, and a refusal made after probing the tmp. path (a file found under the name about to be created) sets '
+    'it too or does not leave the remembered name pointing at that file, so a tmp file this session does not own is never'
+    ' renamed. R1 also accepts the remove of what a failed exclusive create of the same call left behind when an access()'
+    ' probe taken before the create says the name was free. R7 also: a refusal made before any store to the identity '
+    'fields is harmless. Decides the protocol shape on all paths, NOT that HDF5 flushed every byte (see C10) nor page-'
+    'cache loss.')
 TECHNIQUE = ('clang JSON AST; string provenance (with helper inlining); HDF5 handle typestate over the CFG; who-may-call table of file-system primitives; regular-language emptiness')
 ASSUMPTIONS = ["POSIX rename within a directory is atomic", "a file is complete once H5Fclose succeeded",
                "H5F_ACC_EXCL fails on an existing file", "clang 14 AST and CPython ast are faithful"]
